@@ -100,7 +100,9 @@ func runC11(rep *mc.Reporter) {
 	gen(nil, 0)
 
 	// (2) every byte value in every position of short templates (non-UTF-8, NUL, CR/LF)
-	templates := []string{"?", "{?}", "{?}x", "x{?}", "?{a}", "{a}?", "{?", "?}", "{a?}", "{?}{b}", "{}{?}", "a?b"}
+	templates := []string{"?", "{?}", "{?}x", "x{?}", "?{a}", "{a}?", "{?", "?}", "{a?}", "{?}{b}", "{}{?}", "a?b",
+		// valid 2-, 3- and 4-byte UTF-8 runes before / inside the tag: a rune index is not a byte index
+		"\xc3\xa9{?}x", "\xe2\x82\xac?{a}", "{\xc3\xa9?}", "\xf0\x9f\x98\x80{?}{b}", "\xc3\xa9\xe2\x82\xac{a?}\xc3\xa9", "?\xc3\xa9{\xf0\x9f\x98\x80}"}
 	for ti, tpl := range templates {
 		if ti%nshards != shard {
 			continue
@@ -154,7 +156,7 @@ func runC11(rep *mc.Reporter) {
 	}
 	if shard == 2%nshards {
 		// FilterSlot with a single-range white list [lo,hi]: accepted <=> ref slot in range
-		keys := [][]byte{[]byte("a"), []byte("{a}b"), []byte("{a}{b}"), []byte("{}{a}"), []byte("{{a}}"), []byte("}{a}"), []byte("a{b}c{d}"), {0xff, '{', 0xfe, '}'}, []byte("{a}}"), []byte("{a{b}")}
+		keys := [][]byte{[]byte("a"), []byte("{a}b"), []byte("{a}{b}"), []byte("{}{a}"), []byte("{{a}}"), []byte("}{a}"), []byte("a{b}c{d}"), {0xff, '{', 0xfe, '}'}, []byte("{a}}"), []byte("{a{b}"), []byte("\xc3\xa9{a}"), []byte("\xf0\x9f\x98\x80{\xe2\x82\xac}b")}
 		for _, key := range keys {
 			sl := ref.HashSlot(key)
 			for _, rg := range [][2]int{{sl, sl}, {0, sl}, {sl, 16383}, {sl + 1, 16383}, {0, sl - 1}} {
